@@ -1621,7 +1621,8 @@ def _dedupe_evidence0(idx, f, fixed):
             # L.count(x) compared with 1 / 2
             if isinstance(n, ast.Compare) and len(n.ops) == 1 and isinstance(n.left, ast.Call) and isinstance(n.left.func, ast.Attribute) and \
                     n.left.func.attr == "count" and len(n.left.args) == 1 and isinstance(n.comparators[0], ast.Constant) and \
-                    n.comparators[0].value in (1, 2) and isinstance(n.left.func.value, ast.Name):
+                    (type(n.ops[0]).__name__, n.comparators[0].value) in (("Eq", 1), ("Lt", 2), ("LtE", 1), ("NotEq", 1), ("Gt", 1), ("GtE", 2)) and \
+                    isinstance(n.left.func.value, ast.Name):
                 lst = n.left.func.value.id
                 src = binds.get(lst, [])
                 if len(src) == 1:
